@@ -27,6 +27,7 @@ claimed["C08"] = ("other", "Bounded symbolic execution of CompareValues/RankValu
 claimed["C12"] = ("other", "Bounded symbolic execution of the real ParseSource (scanner goroutine under a coroutine scheduler, token queue, regex VM over the real regexp/syntax program, parser) on every string of L arbitrary bytes, on every prefix / single-byte substitution / deletion of five valid documents with an arbitrary byte, on context mismatches and on long tails after an error: returns or a located textual diagnostic, never a run-time error, no goroutine left.", "symbolic execution of go/ssa (goroutines as coroutines, regex VM) + SMT (z3)", "3/C12", "Canonical schedule for the scanner goroutine; inputs longer than L only as the listed documents with one arbitrary byte.")
 claimed["C11"] = ("other", "Lexical level: for every token type and length the solver searches a string of the reference language (Syntax.cdsn expression definitions re-stated as combinators over symbolic bytes) that the real scanner does not scan as exactly that token. Sentence level: the real ParseSource on templates of the grammar rules (all seven contexts, inline/multi-line/empty, nesting) with symbolic digits and letters must return the intended collection; boundary literals evaluate with Go semantics, unrepresentable ones are rejected; result independent of the scanner/parser interleaving up to a schedule bound.", "symbolic execution of go/ssa (regex VM, goroutine scheduler) + SMT (z3); sentence templates enumerated", "3/C11", "Sentences are templates (the solver decides the symbolic characters only); derivations beyond the templates and tokens longer than the bound are not covered.")
 claimed["C10"] = ("other", "Bounded symbolic execution of FormatValue -> ParseSource -> compare / re-format on the real code with symbolic leaves (16-bit integers via a FormatInt contract stub and the real ParseInt, printable runes and characters through the real Quote/Unquote), listed boundary literals of every intrinsic type (floats concrete: strconv's digit generation is outside SMT reach), the seven kinds at sizes 0..3 nested one level, purity after successful and failed calls, termination and elision on self-containing and over-deep values.", "symbolic execution of go/ssa (reflect model, regex VM, goroutines) + SMT (z3); shapes enumerated as templates", "3/C10", "Partially applicable by design: arbitrary recursive shapes, sizes to 40 and float digit generation are outside the claim (DESIGN.md section 5).")
+claimed["C19"] = ("other", "Non-interference by symbolic execution with an access log: for all pairs of operation families on disjoint instances (primitive and composite elements) the heap locations touched by the real code are recorded with locksets; a location touched by both, written by one, with no common lock is a violation (replayed natively in two goroutines under -race). Class accessors are explored under all interleavings at synchronisation operations for same / different fresh type parameters.", "symbolic execution of go/ssa with access/lockset log + SMT (z3); schedule choice points for the registries", "3/C19", "May-happen-in-parallel over explored paths, not full schedule exploration; sequential consistency.")
 reasons = {}
 
 checks = []
